@@ -29,7 +29,7 @@ def main():
         mdir = os.path.join(wt, "_mutants")
         for mid in sorted(os.listdir(mdir)):
             d = os.path.join(mdir, mid)
-            if not re.match(r"C\d\d-m\d$", mid) or not os.path.exists(os.path.join(d, "patch.diff")):
+            if not re.match(r"C\d\d-m\d+$", mid) or not os.path.exists(os.path.join(d, "patch.diff")):
                 continue
             if os.environ.get("SEED_ONLY") and mid not in os.environ["SEED_ONLY"].split(","):
                 continue
